@@ -87,11 +87,11 @@ def gen_config(rnd, style='normal'):
     t = float(tres)
     if style == 'inverted':
         tres = dec(50, 190, 1)
-        trej = dec(float(tres) + 0.5, 200, 1)
+        trej = dec(float(tres) + 2, 200, 1)
     elif style == 'edge' and rnd.random() < 0.25 and t <= 200:
         trej = tres
     else:
-        trej = dec(0.1, min(200.0, t - 1.0), 1)
+        trej = dec(0.1, min(200.0, t - 2.0), 1)
     cfg = {'Reservoir Temperature': tres, 'Rejection Temperature': trej,
            'Reservoir Porosity': dec(0.5, 45), 'Reservoir Area': dec(0.5, 900), 'Reservoir Thickness': dec(0.01, 5, 3),
            'Reservoir Life Cycle': str(rnd.randint(1, 100))}
@@ -178,7 +178,8 @@ def analyse(r):
     dg, pg = r['provided']['reservoir_depth'], r['provided']['reservoir_pressure']
     # model inputs rounded to 15 significant digits (short decimals come back as themselves): small kernel literals;
     # no decision of Calculate is within 1e-15 of its threshold for inputs written as short decimals
-    flat = [qconv.sig15(x) for x in pre[:12] + [F(int(dg)), pre[12], F(int(pg)), pre[13], fdmin, fhcmin, dens, cp] + hs]
+    # (enthalpies and entropies stay exact: their differences cancel when the two temperatures are close)
+    flat = [qconv.sig15(x) for x in pre[:12] + [F(int(dg)), pre[12], F(int(pg)), pre[13], fdmin, fhcmin, dens, cp]] + hs
     if r['calc_error']:
         impl = ('E', ERRCODE.get(r['calc_error'], 97))
         outs = None
@@ -195,11 +196,13 @@ def analyse(r):
             'oracle_ok': oracle_ok}
 
 
-def clause_terms(a, tol=TOL):
+def clause_terms(a, tol=TOL, all_in_one=False):
     """Coq boolean terms: the clauses of the property on one implementation run."""
     p, o, t = a['pre'], qconv.qlist(a['outs']), qconv.q(tol)
     por, area, thick, rff = (qconv.q(p[N[k]]) for k in ('reservoir_porosity', 'reservoir_area', 'reservoir_thickness',
                                                         'recoverable_fluid_factor'))
+    if all_in_one:
+        return [f'chk_run {t} {por} {area} {thick} {rff} {o}']
     return [f'chk_volume {t} {area} {thick} {o}', f'chk_vol_rock {t} {por} {o}', f'chk_vol_fluid {t} {por} {rff} {o}',
             f'chk_stored_sum {t} {o}', f'chk_avail_le_stored {t} {o}', f'chk_prod_le_avail {t} {o}']
 
@@ -231,13 +234,15 @@ def part_model(ctx, labelled, results):
                  key_of=lambda c: 'calculate:model-differs:' + c['desc']['label'].split(':')[0],
                  what='HIP_RA_X.Calculate and the Coq model hip_calc disagree (outputs in the order of hiprun.OUT_ATTRS)')
     # the property itself, on what the implementation produced
+    failing_runs = [ok_runs[b] for b in fw.kernel_bools(ctx, 'clauses', REQ, [clause_terms(a, all_in_one=True)[0] for a in ok_runs],
+                                                        shard=max(20, len(ok_runs) // 32 + 1))]
     terms = []
-    for a in ok_runs:
+    for a in failing_runs:
         terms += clause_terms(a)
-    bad = fw.kernel_bools(ctx, 'clauses', REQ, terms, shard=240)
-    ctx.count('property-on-implementation', evaluations=len(terms), nontrivial_keys=[a['sig'] for a in ok_runs])
+    bad = fw.kernel_bools(ctx, 'clauses_detail', REQ, terms, shard=120)
+    ctx.count('property-on-implementation', evaluations=6 * len(ok_runs), nontrivial_keys=[a['sig'] for a in ok_runs])
     for b in bad:
-        a, cl = ok_runs[b // 6], CLAUSES[b % 6]
+        a, cl = failing_runs[b // 6], CLAUSES[b % 6]
         regime = 'Tres<Trej' if a['tres'] < a['trej'] else 'Tres>Trej'
         key = f'cascade:{cl}:{regime}' if b % 6 >= 4 else f'additivity:{cl}'
         ctx.violate('property', key, f'HIP-RA-X clause "{cl}" fails on the real code ({regime})',
@@ -344,10 +349,17 @@ def part_units(ctx, bases, table):
     jobs = []
     for style, cfg in bases:
         for (name, unit, f, o) in table:
-            x = unit_value(rnd, name, unit)
-            vtxt = written_in(name, x, unit)
-            c1, c2 = dict(cfg), dict(cfg)
-            c1[name], c2[name] = x, f'{vtxt} {unit}'
+            c1 = dict(cfg)
+            if 'Temperature' in name:
+                # keep the two temperatures well apart: close temperatures make the results ill-conditioned
+                # (exergy ~ dT**2), and the 1e-15 difference between the two spellings would show at 1e-9
+                c1['Reservoir Temperature'] = unit_value(rnd, 'Reservoir Temperature')
+                c1['Rejection Temperature'] = unit_value(rnd, 'Rejection Temperature')
+            else:
+                c1[name] = unit_value(rnd, name, unit)
+            vtxt = written_in(name, c1[name], unit)
+            c2 = dict(c1)
+            c2[name] = f'{vtxt} {unit}'
             jobs.append((c1, c2, name, unit, f, o, F(vtxt)))
     res = hiprun.run_many(ctx, [text_of(j[0]) for j in jobs] + [text_of(j[1]) for j in jobs], want_report=False)
     r1s, r2s = res[:len(jobs)], res[len(jobs):]
